@@ -16,6 +16,7 @@ import (
 	"github.com/invopop/gobl/bill"
 	"github.com/invopop/gobl/cbc"
 	"github.com/invopop/gobl/l10n"
+	"github.com/invopop/gobl/num"
 	"github.com/invopop/gobl/tax"
 	"github.com/invopop/gobl/verifharness/internal/corpus"
 	"github.com/invopop/gobl/verifharness/internal/vh"
@@ -85,6 +86,55 @@ func exercise(d *corpus.Doc, o *vh.Obs) (regime string, addons []string) {
 	}
 	if e4, err := d.Envelope(); err == nil {
 		_, _ = e4.Replicate()
+	}
+	// what a calculated document holds is its own: an application that writes
+	// into it (decoding another document into the same value does) must not
+	// reach the tables the values were taken from
+	if e6, err := d.Envelope(); err == nil {
+		if inv, ok := e6.Extract().(*bill.Invoice); ok {
+			other := num.MakePercentage(999, 3)
+			touch := func(set tax.Set) {
+				for _, cb := range set {
+					if cb == nil {
+						continue
+					}
+					if cb.Percent != nil {
+						*cb.Percent = other
+					}
+					if cb.Surcharge != nil {
+						*cb.Surcharge = other
+					}
+					for k := range cb.Ext {
+						cb.Ext[k] = "ZZ"
+					}
+				}
+			}
+			for _, l := range inv.Lines {
+				if l != nil {
+					touch(l.Taxes)
+				}
+			}
+			for _, l := range inv.Discounts {
+				if l != nil {
+					touch(l.Taxes)
+				}
+			}
+			for _, l := range inv.Charges {
+				if l != nil {
+					touch(l.Taxes)
+				}
+			}
+			if inv.Tax != nil {
+				for k := range inv.Tax.Ext {
+					inv.Tax.Ext[k] = "ZZ"
+				}
+			}
+			for i := range inv.Notes {
+				if inv.Notes[i] != nil {
+					inv.Notes[i].Text = "written over"
+				}
+			}
+		}
 	}
 	if e5, err := d.Envelope(); err == nil {
 		_ = e5.Calculate()
